@@ -24,7 +24,8 @@ BUDGET = {"quick": 3500, "thorough": 50000}
 MIN_NONTRIVIAL = {"quick": 300, "thorough": 3000}
 REQUIRED_FUNCTIONS = ["program.py:BlackbirdProgram.serialize", "program.py:numpy_to_blackbird", "program.py:_format_value"]
 FUNCTIONS = REQUIRED_FUNCTIONS + ["listener.py:BlackbirdListener.exitStatement", "auxiliary.py:_get_arguments"]
-REQUIRED_TAGS = ["kwarg-list", "param-arg", "regref-arg", "array-arg", "target-options", "tdm", "loop", "param-in-list", "param-multi"]
+REQUIRED_TAGS = ["kwarg-list", "param-arg", "regref-arg", "array-arg", "target-options", "tdm", "loop", "param-in-list", "param-multi",
+                 "twin-arrays:reshape", "twin-arrays:zeros", "twin-arrays:identical", "twin-arrays:int-vs-float"]
 ASSUMPTIONS = ["validity and domain of the input script are decided by the reference interpreter (finite values, no cancelling parameter/register, no function of a symbol)",
                "symbolic values are compared numerically at generic points with relative tolerance 1e-9 (float printing precision)"]
 GENERATIONS = {"quick": 3, "thorough": 6}
@@ -110,6 +111,13 @@ def roundtrip(text, gens, g):
     for n in range(1, gens + 1):
         try:
             t = blackbird.dumps(prev)
+            if n % 2 == 0:
+                import io
+
+                buf = io.StringIO()
+                blackbird.dump(prev, buf)
+                if buf.getvalue() != t:
+                    return ("dump-differs-from-dumps", "generation %d: dump() to a file-like object wrote a text different from dumps()" % n)
         except Exception as e:
             if has_symbolic_array(cprev) and isinstance(e, (ValueError, KeyError, TypeError)):
                 return ("array-with-parameter-unserialisable", "generation %d: dumps() raised %s for a program holding an array with parameter elements" % (n, common.exc_text(e)))
@@ -165,6 +173,32 @@ def check_text(ctx, text, tags=()):
         ctx.violation(res[0], res[1], {"text": text})
 
 
+def add_twin_arrays(rng, text):
+    """Append arrays that are equal in some sense (same elements in another shape, same zeros in another
+    type, identical twins) and pass them to one operation: a serialiser that merges 'equal' arrays shows here."""
+    vals = [rng.choice(["1", "2", "0", "3.5", "7", "0.25"]) for _ in range(rng.choice([2, 3, 4, 6]))]
+    n = len(vals)
+    kind = rng.choice(["reshape", "zeros", "identical", "int-vs-float"])
+    vt = rng.choice(["float", "complex"]) if any("." in v for v in vals) else rng.choice(["int", "float"])
+    lines = []
+    if kind == "reshape":
+        lines += ["%s array Tw1 =" % vt, "    " + ", ".join(vals), "%s array Tw2 =" % vt] + ["    " + v for v in vals]
+        if n % 2 == 0:
+            lines += ["%s array Tw3 =" % vt, "    " + ", ".join(vals[: n // 2]), "    " + ", ".join(vals[n // 2 :])]
+    elif kind == "zeros":
+        lines += ["int array Tw1 =", "    " + ", ".join(["0"] * n), "float array Tw2 =", "    " + ", ".join(["0"] * n), "complex array Tw3 =", "    " + ", ".join(["0"] * n)]
+    elif kind == "identical":
+        lines += ["%s array Tw1 =" % vt, "    " + ", ".join(vals), "%s array Tw2 =" % vt, "    " + ", ".join(vals)]
+    else:
+        iv = [str(rng.randint(0, 9)) for _ in range(n)]
+        lines += ["int array Tw1 =", "    " + ", ".join(iv), "float array Tw2 =", "    " + ", ".join(iv)]
+    names = ["Tw1", "Tw2"] + (["Tw3"] if any(l.split()[-2:-1] == ["Tw3"] for l in lines) else [])
+    rng.shuffle(names)
+    lines.append("Twin(%s, k=%s) | [0, 1]" % (", ".join(names), names[0]))
+    lines.append("Twin2(%s) | 2" % names[-1])
+    return text.rstrip("\n") + "\n" + "\n".join(lines) + "\n", ["twin-arrays:" + kind]
+
+
 def run(ctx):
     g = common.grammar()
     if ctx.worker == 0:
@@ -178,7 +212,10 @@ def run(ctx):
         except RuntimeError:
             ctx.out_of_domain("generator gave up")
             continue
-        check_text(ctx, text)
+        extra = []
+        if rng.random() < 0.12:
+            text, extra = add_twin_arrays(rng, text)
+        check_text(ctx, text, tags=extra)
     ctx.observe("uncheckable symbolic comparisons", content.UNCHECKABLE[0])
 
 
